@@ -272,3 +272,62 @@ PLAN["C14"] = {
 }
 LEVEL_TEXT["C14"] = ("all interleavings with <= c preemptions (3 quick, 4 thorough; wmm: <= d stale reads, exercising the fence pairing) of writers and readers for 1-4 slots, plus "
                      "exhaustive byte-position round trips for six type sizes/alignments; every loaded value compared byte-wise with the set of stored values")
+
+# ------------------------------------------------------------------------------------------------- C08
+# hm.cpp op bits: 0 emplace, 1 erase, 2 contains, 3 find, 4 emplace_or_get, 5 get_or_emplace, 6 get_or_emplace_lazy, 7 erase(find()), 8 operator[]
+TITLES["C08"] = "Harris-Michael list set and hash map are linearizable sets/maps"
+_c08_quick = [
+    run("hm", "set_hp", c=1, opt={"ops": 0x7}), run("hm", "set_ebr", c=1, opt={"ops": 0x93, "prefill": 3}), run("hm", "set_lfrc", c=1, opt={"ops": 0x13, "prefill": 1}),
+    run("hm", "set_stamp", c=1, opt={"ops": 0x3, "prefill": 3}), run("hm", "set_greater_hp", c=1, opt={"ops": 0x7, "prefill": 2}),
+    run("hm", "map_b1_memo_scr_hp", c=1, opt={"ops": 0x23}), run("hm", "map_b1_lfrc", c=1, opt={"ops": 0x23, "prefill": 2}), run("hm", "map_b1_memo_scr_lfrc", c=1, opt={"ops": 0x62, "prefill": 2}),
+    run("hm", "map_b2_hp", c=1, opt={"ops": 0x83, "prefill": 3}), run("hm", "map_b1_const_hp", c=1, opt={"ops": 0x103, "prefill": 1}),
+    run("hm", "map_b1_ebr", c=2, opt={"ops": 0x7, "keys": 1}), run("hm", "set_hp", c=2, opt={"ops": 0x7, "keys": 1}), run("hm", "map_b1_lfrc", c=2, opt={"ops": 0x23, "keys": 1}),
+    run("hm", "map_b1_hp", c=1, heap="reuse", opt={"ops": 0x23, "prefill": 2}),
+    run("hm", "map_b1_memo_scr_hp", c=0, opt={"T": 1, "m": 4, "ops": 0x1ff}), run("hm", "set_hp", c=0, opt={"T": 1, "m": 5, "ops": 0x9f}),
+    run("hm", "map_b2_memo_scr_hp", c=0, opt={"T": 1, "m": 4, "ops": 0x1ff, "keys": 3, "prefill": 5}),
+]
+_c08_thorough = [run("hm", "set_" + r, c=1, opt={"ops": 0x97}, weight=3 if r == "stamp" else 1) for r in ["hp", "hpd", "he", "hed", "qsbr", "ebr", "nebr", "debra", "gebr_lazy", "stamp", "lfrc"]] + \
+    [run("hm", "map_" + t, c=1, opt={"ops": 0xa7}, weight=3 if "stamp" in t else 1) for t in ["b1_hp", "b1_memo_hp", "b1_memo_scr_hp", "b1_const_hp", "b2_hp", "b2_memo_scr_hp", "b1_ebr", "b1_memo_scr_ebr", "b2_ebr", "b1_he", "b1_qsbr", "b1_nebr", "b1_debra", "b1_stamp", "b1_lfrc", "b1_memo_scr_lfrc"]] + \
+    [run("hm", t, c=2, opt={"ops": 0x23, "keys": 2, "prefill": 1}, weight=4) for t in ["map_b1_hp", "map_b1_lfrc", "map_b1_memo_scr_ebr"]] + \
+    [run("hm", t, c=2, opt={"ops": 0x13, "keys": 2, "prefill": 2}, weight=4) for t in ["set_hp", "set_lfrc", "set_ebr"]] + \
+    [run("hm", t, c=3, opt={"ops": 0x7, "keys": 1}, weight=3) for t in ["set_hp", "map_b1_lfrc"]] + \
+    [run("hm", t, c=2, opt={"ops": 0x3, "T": 3, "m": 1, "keys": 1}, weight=1) for t in ["set_hp", "set_ebr", "set_lfrc", "map_b1_hp", "map_b1_lfrc"]] + \
+    [run("hm", t, c=1, heap="reuse", opt={"ops": 0x63}, weight=1) for t in ["map_b1_hp", "map_b1_ebr", "set_hp"]] + \
+    [run("hm", "map_b1_memo_scr_hp", c=0, opt={"T": 1, "m": 5, "ops": 0x1ff}, weight=3), run("hm", "set_hp", c=0, opt={"T": 1, "m": 6, "ops": 0x9f}, weight=3),
+     run("hm", "map_b2_memo_scr_hp", c=0, opt={"T": 1, "m": 4, "ops": 0x1ff, "keys": 3}, weight=3), run("hm", "set_greater_hp", c=0, opt={"T": 1, "m": 5, "ops": 0x9f, "keys": 3}, weight=3)]
+PLAN["C08"] = {
+    "quick": _c08_quick, "thorough": _c08_thorough, "budget_s": {"quick": 170, "thorough": 1700},
+    "rule": "programs: T threads x m operations over subsets of {emplace, erase(key), contains, find, emplace_or_get, get_or_emplace, get_or_emplace_lazy, erase(find(key)), "
+            "operator[]} on 1-3 keys (all assignments; programs without update, without a key shared by two threads, and symmetric duplicates pruned), all prefill subsets, "
+            "final iteration as a snapshot operation; bucket counts 1-2, memoize_hash on/off, identity / constant / order-scrambling hash functors, std::greater compare; "
+            "heap in quarantine and in immediate-reuse (ABA) mode; sequential runs: all sequences of depth 4-6 over the full alphabet; oracle: Wing-Gong linearizability "
+            "against a sequential map incl. value identity (erase(iterator) may have removed the element itself or lost the race to another remover)",
+    "assumptions": [],
+}
+LEVEL_TEXT["C08"] = ("all interleavings with <= c preemptions (1-2 quick, up to 3 thorough) of all enumerated 2-3 thread programs over small colliding key sets for the set and "
+                     "ten hash-map configurations, plus all sequential operation sequences to depth 4-6; every history checked for linearizability against a sequential map")
+
+# ------------------------------------------------------------------------------------------------- C09
+TITLES["C09"] = "Harris-Michael iterators stay valid and weakly consistent under updates"
+_it_seq = ["iset_hp", "imap_b1_hp", "imap_b1_memo_hp", "imap_b1_memo_scr_hp", "imap_b1_scr_hp", "imap_b2_memo_scr_hp", "imap_b2_hp"]
+_it_conc = ["iset_hp", "iset_hpd", "iset_he", "iset_qsbr", "iset_ebr", "iset_nebr", "iset_debra", "iset_stamp", "iset_lfrc",
+            "imap_b1_hp", "imap_b1_memo_scr_hp", "imap_b2_memo_scr_hp", "imap_b1_ebr", "imap_b1_memo_scr_ebr", "imap_b1_he", "imap_b1_stamp", "imap_b1_lfrc"]
+PLAN["C09"] = {
+    "quick": [run("hm", t, c=0, opt={"updaters": 0, "steps": 3}, weight=0.3) for t in _it_seq] +
+             [run("hm", t, c=1, opt={"keys": 2}, weight=2 if "stamp" in t else 1) for t in _it_conc] +
+             [run("hm", t, c=2, opt={"keys": 2, "m": 1}, weight=3) for t in ["iset_lfrc", "imap_b1_memo_scr_hp"]],
+    "thorough": [run("hm", t, c=0, opt={"updaters": 0, "steps": 4}, weight=1) for t in _it_seq] +
+                [run("hm", t, c=2, opt={"keys": 2}, weight=8 if "stamp" in t else 4) for t in _it_conc] +
+                [run("hm", t, c=1, opt={"keys": 3, "m": 2}, weight=3) for t in ["iset_hp", "imap_b1_memo_scr_hp", "iset_lfrc", "imap_b2_memo_scr_hp"]] +
+                [run("hm", t, c=1, opt={"keys": 2, "m": 1, "updaters": 2}, weight=3) for t in ["iset_hp", "imap_b1_memo_scr_hp", "iset_ebr", "iset_lfrc"]],
+    "budget_s": {"quick": 150, "thorough": 1700},
+    "rule": "a traversing thread (begin, dereference, then per position an enumerated choice of ++, continue on a copy while the original is destroyed, or it = erase(it)) "
+            "against 1-2 updater threads running enumerated emplace/erase programs on 2-3 keys, all non-empty prefill subsets; sequential runs: the traversing thread itself "
+            "performs an enumerated erase/emplace of any key through the container between iterator steps (up to 3-4 steps); HP/HE with 8 static slots; oracle on the recorded "
+            "history: every key present throughout and never erased is yielded exactly once, every yielded key was in the container by then, a key is yielded twice only if it "
+            "was re-inserted during the traversal, sorted traversal of the set never goes backwards without a re-insert, erase(iterator) removes the element (conservation "
+            "against the final iteration); heap lifetime shadow and race detector cover 'never touches reclaimed memory'",
+    "assumptions": ["weak consistency is checked with conservative rules (violations are only reported when no linearization of the concurrent updates could explain the traversal)"],
+}
+LEVEL_TEXT["C09"] = ("all interleavings with <= c preemptions (1-2) of a traversing/erasing iterator thread with 1-2 updaters for 17 container x reclaimer configurations, plus all "
+                     "single-thread sequences of iterator steps interleaved with updates through the container; traversal results checked against the update history")
